@@ -75,7 +75,7 @@ class F:
 
     def __init__(self, prec):
         self.v = mpfr_t()
-        _mpfr.mpfr_init2(byref(self.v), max(2, int(prec)))
+        _mpfr.mpfr_init2(byref(self.v), max(1, int(prec)))      # MPFR_PREC_MIN is 1 since MPFR 4.0
 
     def __del__(self):
         try:
